@@ -251,6 +251,8 @@ def rE(E):
         return "length(" + rE(E[1]) + ")"
     if t == "lit":
         return lit_src(E[1])
+    if t == "lam":
+        return "fn(x) x"
     raise ValueError(E)
 
 
@@ -317,6 +319,8 @@ def rS(S):
         return "break"
     if t == "cont":
         return "continue"
+    if t == "bind":
+        return f"bind_native('{S[1]}')"
     if t == "runf":
         return f"run('{S[1]}')"
     if t == "req":
@@ -627,6 +631,15 @@ class Machine:
             return Ctl("cont")
         if t == "req":
             return self.require(S, scope)
+        if t == "bind":
+            # bind_native of an OS-touching native: it becomes defined in
+            # a non-secure interpreter and in no other
+            if self.nonsecure:
+                scope.vars[S[1]] = Fn(S[1], ["filename"], [["ret", 0]],
+                                      scope)
+                scope.unspec.discard(S[1])
+                self.effect()
+            return None
         if t == "runf":
             # the script runner exists in non-secure interpreters only and
             # evaluates the file in the session of the interpreter that
@@ -774,6 +787,10 @@ class Machine:
                          for k, v in E[1]])
         if t == "lit":
             return lit_value(E[1])
+        if t == "lam":
+            # every evaluation yields a new function value; two function
+            # values are equal only if they are the same object
+            return Fn("lambda", ["x"], [["ret", ["v", "x"]]], scope)
         if t == "v":
             s = scope.lookup(E[1])
             if s is None:
@@ -1078,6 +1095,11 @@ class ModelStore:
                 m.stat("torn_read")
             else:
                 raise HostErr("read")
+        if "undecodable" in entry:
+            # a module file that cannot be decoded is an unreadable module:
+            # the runtime error 'ERROR' (repair 2c16005), catchable
+            m.stat("undecodable_module_file")
+            raise Err(ERROR, "module file cannot be decoded")
         if "raw" in entry:
             if lines is not None:
                 raise Unspec("torn read of a raw module")
